@@ -109,6 +109,9 @@ Model/StTyping.vos Model/StTyping.vok Model/StTyping.required_vos: Model/StTypin
 Model/Stbc.vo Model/Stbc.glob Model/Stbc.v.beautified Model/Stbc.required_vo: Model/Stbc.v 
 Model/Stbc.vio: Model/Stbc.v 
 Model/Stbc.vos Model/Stbc.vok Model/Stbc.required_vos: Model/Stbc.v 
+Model/StbcEnc.vo Model/StbcEnc.glob Model/StbcEnc.v.beautified Model/StbcEnc.required_vo: Model/StbcEnc.v Model/Stbc.vo
+Model/StbcEnc.vio: Model/StbcEnc.v Model/Stbc.vio
+Model/StbcEnc.vos Model/StbcEnc.vok Model/StbcEnc.required_vos: Model/StbcEnc.v Model/Stbc.vos
 Model/WebIde.vo Model/WebIde.glob Model/WebIde.v.beautified Model/WebIde.required_vo: Model/WebIde.v 
 Model/WebIde.vio: Model/WebIde.v 
 Model/WebIde.vos Model/WebIde.vok Model/WebIde.required_vos: Model/WebIde.v 
@@ -136,6 +139,9 @@ Proofs/C09Proofs.vos Proofs/C09Proofs.vok Proofs/C09Proofs.required_vos: Proofs/
 Proofs/C10Proofs.vo Proofs/C10Proofs.glob Proofs/C10Proofs.v.beautified Proofs/C10Proofs.required_vo: Proofs/C10Proofs.v Model/RetainCodec.vo Model/CrashFs.vo
 Proofs/C10Proofs.vio: Proofs/C10Proofs.v Model/RetainCodec.vio Model/CrashFs.vio
 Proofs/C10Proofs.vos Proofs/C10Proofs.vok Proofs/C10Proofs.required_vos: Proofs/C10Proofs.v Model/RetainCodec.vos Model/CrashFs.vos
+Proofs/C11Frame.vo Proofs/C11Frame.glob Proofs/C11Frame.v.beautified Proofs/C11Frame.required_vo: Proofs/C11Frame.v Model/Stbc.vo Model/StbcEnc.vo Proofs/C11Proofs.vo
+Proofs/C11Frame.vio: Proofs/C11Frame.v Model/Stbc.vio Model/StbcEnc.vio Proofs/C11Proofs.vio
+Proofs/C11Frame.vos Proofs/C11Frame.vok Proofs/C11Frame.required_vos: Proofs/C11Frame.v Model/Stbc.vos Model/StbcEnc.vos Proofs/C11Proofs.vos
 Proofs/C11Proofs.vo Proofs/C11Proofs.glob Proofs/C11Proofs.v.beautified Proofs/C11Proofs.required_vo: Proofs/C11Proofs.v Model/Stbc.vo
 Proofs/C11Proofs.vio: Proofs/C11Proofs.v Model/Stbc.vio
 Proofs/C11Proofs.vos Proofs/C11Proofs.vok Proofs/C11Proofs.required_vos: Proofs/C11Proofs.v Model/Stbc.vos
@@ -208,9 +214,9 @@ Properties/C09.vos Properties/C09.vok Properties/C09.required_vos: Properties/C0
 Properties/C10.vo Properties/C10.glob Properties/C10.v.beautified Properties/C10.required_vo: Properties/C10.v Model/RetainCodec.vo Model/CrashFs.vo Proofs/C10Proofs.vo
 Properties/C10.vio: Properties/C10.v Model/RetainCodec.vio Model/CrashFs.vio Proofs/C10Proofs.vio
 Properties/C10.vos Properties/C10.vok Properties/C10.required_vos: Properties/C10.v Model/RetainCodec.vos Model/CrashFs.vos Proofs/C10Proofs.vos
-Properties/C11.vo Properties/C11.glob Properties/C11.v.beautified Properties/C11.required_vo: Properties/C11.v Model/Stbc.vo Proofs/C11Proofs.vo
-Properties/C11.vio: Properties/C11.v Model/Stbc.vio Proofs/C11Proofs.vio
-Properties/C11.vos Properties/C11.vok Properties/C11.required_vos: Properties/C11.v Model/Stbc.vos Proofs/C11Proofs.vos
+Properties/C11.vo Properties/C11.glob Properties/C11.v.beautified Properties/C11.required_vo: Properties/C11.v Model/Stbc.vo Model/StbcEnc.vo Proofs/C11Proofs.vo Proofs/C11Frame.vo
+Properties/C11.vio: Properties/C11.v Model/Stbc.vio Model/StbcEnc.vio Proofs/C11Proofs.vio Proofs/C11Frame.vio
+Properties/C11.vos Properties/C11.vok Properties/C11.required_vos: Properties/C11.v Model/Stbc.vos Model/StbcEnc.vos Proofs/C11Proofs.vos Proofs/C11Frame.vos
 Properties/C12.vo Properties/C12.glob Properties/C12.v.beautified Properties/C12.required_vo: Properties/C12.v Model/LexSink.vo Proofs/C12Proofs.vo
 Properties/C12.vio: Properties/C12.v Model/LexSink.vio Proofs/C12Proofs.vio
 Properties/C12.vos Properties/C12.vok Properties/C12.required_vos: Properties/C12.v Model/LexSink.vos Proofs/C12Proofs.vos
@@ -256,9 +262,9 @@ Spec/C07Judge.vos Spec/C07Judge.vok Spec/C07Judge.required_vos: Spec/C07Judge.v 
 Spec/C09Judge.vo Spec/C09Judge.glob Spec/C09Judge.v.beautified Spec/C09Judge.required_vo: Spec/C09Judge.v Model/Restart.vo
 Spec/C09Judge.vio: Spec/C09Judge.v Model/Restart.vio
 Spec/C09Judge.vos Spec/C09Judge.vok Spec/C09Judge.required_vos: Spec/C09Judge.v Model/Restart.vos
-Spec/C11Judge.vo Spec/C11Judge.glob Spec/C11Judge.v.beautified Spec/C11Judge.required_vo: Spec/C11Judge.v Model/Stbc.vo
-Spec/C11Judge.vio: Spec/C11Judge.v Model/Stbc.vio
-Spec/C11Judge.vos Spec/C11Judge.vok Spec/C11Judge.required_vos: Spec/C11Judge.v Model/Stbc.vos
+Spec/C11Judge.vo Spec/C11Judge.glob Spec/C11Judge.v.beautified Spec/C11Judge.required_vo: Spec/C11Judge.v Model/Stbc.vo Model/StbcEnc.vo
+Spec/C11Judge.vio: Spec/C11Judge.v Model/Stbc.vio Model/StbcEnc.vio
+Spec/C11Judge.vos Spec/C11Judge.vok Spec/C11Judge.required_vos: Spec/C11Judge.v Model/Stbc.vos Model/StbcEnc.vos
 Spec/C12Judge.vo Spec/C12Judge.glob Spec/C12Judge.v.beautified Spec/C12Judge.required_vo: Spec/C12Judge.v Model/LexSink.vo
 Spec/C12Judge.vio: Spec/C12Judge.v Model/LexSink.vio
 Spec/C12Judge.vos Spec/C12Judge.vok Spec/C12Judge.required_vos: Spec/C12Judge.v Model/LexSink.vos
